@@ -118,7 +118,9 @@ class ImplRun:
         cl = self.c[cid]
         self.bserial += 1
         s = self.bserial
-        ok = cl.send(bus.method_call(s, bus.BUS, "/", "org.freedesktop.DBus.Peer", "Ping"))
+        # no destination: answered by the connection's built-in peer filter before bus_dispatch sees it —
+        # no policy involved, invisible to eavesdroppers and monitors, answered even to monitors
+        ok = cl.send(bus.method_call(s, None, "/", "org.freedesktop.DBus.Peer", "Ping"))
         t0 = time.time()
         while True:
             raw = self._pop_raw(cl)
@@ -137,6 +139,21 @@ class ImplRun:
             if left <= 0:
                 raise InfraError("barrier timed out on connection %d; daemon stderr: %s" % (cid, self.d.stderr()[-1500:]))
             cl._fill(left)
+
+    def _ctl_sync(self, n=2):
+        """round trips through bus_dispatch on the control connection: every deferred action of the
+        daemon (zero-interval timeouts such as the expiry of a vanished callee's slots) has run by then"""
+        ctl = self.c.get(0)
+        if ctl is None or 0 in self.closed:
+            time.sleep(0.02); return
+        for _ in range(n):
+            self.bserial += 1
+            s = self.bserial
+            if not ctl.send(bus.method_call(s, bus.BUS, bus.BUS_PATH, bus.BUS, "NameHasOwner", "s", [b"org.freedesktop.DBus"])):
+                return
+            msgs = ctl.recv_until(lambda m: m.mtype in (2, 3) and m.get(5) == s, 10.0)
+            if not msgs or msgs[-1] is None:
+                return
 
     def _wait_gone(self, cid):
         """wait until the daemon has finished the disconnect of `cid`"""
@@ -184,10 +201,9 @@ class ImplRun:
                 self.closed.add(op[1])
                 got.pop(op[1], None)
                 self._wait_gone(op[1])
-        order = ([actor] if actor is not None else []) + [c for c in sorted(self.c) if c != actor]
-        for cid in order:
-            if cid in self.closed or cid not in self.c or cid in self.monitors:
-                continue
+        def settle(cid):
+            if cid in self.closed or cid not in self.c:
+                return
             if not self._barrier(cid, got[cid]):
                 # drain what is left, then account for the closure
                 cl = self.c[cid]
@@ -199,6 +215,11 @@ class ImplRun:
                 cl.close()
                 self.closed.add(cid); newly.add(cid)
                 self._wait_gone(cid)
+        if actor is not None:
+            settle(actor)            # the op itself has been processed once this returns
+        self._ctl_sync()             # ... and so have the daemon's deferred follow-ups
+        for cid in sorted(self.c):
+            settle(cid)
         # learn unique names from Hello replies
         for cid, raws in got.items():
             if cid not in self.unique:
